@@ -129,8 +129,16 @@ def occupied_variant(tree, search, replace, r, k):
     names = {e["p"] for e in tree}
     if dest in names or search.lower().replace("_", "") in dest.rsplit("/", 1)[-1].lower().replace("_", "").replace("-", ""):
         return None      # the occupant would itself be renamed (replacement contains the term)
+    if k % 5 == 4:
+        # the SOURCE becomes a symlink whose target is its own planned destination, where a regular file sits (an alias left by a
+        # manual rename): canonicalising the source lands on the occupant
+        src = next((e for e in tree if e["p"] == ren["path"]), None)
+        if src is None or src["k"] != "f" or any(e["p"].startswith(ren["path"] + "/") for e in tree):
+            return None
+        t2 = [e for e in tree if e["p"] != ren["path"]]
+        return t2 + [{"p": ren["path"], "k": "l", "t": dest.rsplit("/", 1)[-1]}, {"p": dest, "k": "f", "c": b"the real file\n", "m": 0o640}]
     occ = [{"p": dest, "k": "l", "t": ren["path"].rsplit("/", 1)[-1]}, {"p": dest, "k": "f", "c": b"occupant\n", "m": 0o640},
-           {"p": dest, "k": "d", "m": 0o755}, {"p": dest, "k": "l", "t": "nowhere"}][k % 4]
+           {"p": dest, "k": "d", "m": 0o755}, {"p": dest, "k": "l", "t": "nowhere"}][k % 5 % 4]
     return tree + [occ]
 
 
